@@ -5,6 +5,7 @@ CONSTANTS
   MaxLen = 4
   MaxGen = 2
   Ops = {"KX", "KY", "S", "SR", "SC", "BYE", "CL", "RcR", "RcC", "RvR", "RfR", "RvC", "RfC", "BX", "BY", "B0"}
+  Reps = {1}
   Deviations = {}
 INVARIANTS TypeOK NoClearEgress NothingBeforeKeys NoClearIngress AllowedSound NoReplay
 PROPERTIES StepInside
